@@ -381,6 +381,280 @@ fn strings(alpha: &[u8], maxlen: usize, mut f: impl FnMut(&[u8]) -> bool) -> boo
   }
 }
 
+// ---------------------------------------------------------------- float literals and whole byte-string literals
+
+/// RFC 8610 number syntax (decimal with fraction and/or exponent; hexfloat).  Returns Some(value) when the text is a
+/// float literal whose value is a finite f64 (correctly rounded), None when it is not a valid literal or overflows.
+fn spec_float(s: &str) -> Option<f64> {
+  let b = s.as_bytes();
+  let mut i = 0;
+  let neg = b.first() == Some(&b'-');
+  if neg {
+    i += 1;
+  }
+  let digits = |i: &mut usize, hex: bool| -> usize {
+    let st = *i;
+    while *i < b.len() && (if hex { b[*i].is_ascii_hexdigit() } else { b[*i].is_ascii_digit() }) {
+      *i += 1;
+    }
+    *i - st
+  };
+  if b.len() >= i + 2 && b[i] == b'0' && (b[i + 1] == b'x' || b[i + 1] == b'X') {
+    // hexfloat = ["-"] "0x" 1*HEXDIG ["." 1*HEXDIG] "p" exponent
+    i += 2;
+    let st = i;
+    if digits(&mut i, true) == 0 {
+      return None;
+    }
+    let mut mant: u128 = u128::from_str_radix(&s[st..i], 16).ok()?;
+    let mut frac_digits = 0i32;
+    if i < b.len() && b[i] == b'.' {
+      i += 1;
+      let fs = i;
+      let n = digits(&mut i, true);
+      if n == 0 || n > 14 {
+        return None; // (the twin only handles mantissas that fit; longer ones are not enumerated)
+      }
+      mant = (mant << (4 * n)) | u128::from_str_radix(&s[fs..i], 16).ok()?;
+      frac_digits = n as i32;
+    }
+    if !(i < b.len() && (b[i] == b'p' || b[i] == b'P')) {
+      return None;
+    }
+    i += 1;
+    let es = i;
+    if i < b.len() && (b[i] == b'+' || b[i] == b'-') {
+      i += 1;
+    }
+    if digits(&mut i, false) == 0 || i != b.len() {
+      return None;
+    }
+    let e: i32 = s[es..].parse().ok()?;
+    if mant == 0 {
+      return Some(if neg { -0.0 } else { 0.0 });
+    }
+    // value = mant * 2^x with mant < 2^53 (after dropping trailing zero bits): exact in f64 whenever the result is
+    // a normal number; two exact scalings
+    let mut x = e - 4 * frac_digits;
+    let tz = mant.trailing_zeros();
+    mant >>= tz;
+    x += tz as i32;
+    if mant >= (1u128 << 53) {
+      return Some(f64::NAN); // needs rounding: not enumerated (NaN = "skip")
+    }
+    let top = 127 - mant.leading_zeros() as i32 + x; // exponent of the leading bit
+    if top > 1023 {
+      return None; // overflows: not representable
+    }
+    if top < -1022 {
+      return Some(f64::NAN); // subnormal / underflow: not enumerated (NaN = "skip")
+    }
+    let (x1, x2) = (x / 2, x - x / 2);
+    let v = (mant as f64) * 2f64.powi(x1) * 2f64.powi(x2);
+    return Some(if neg { -v } else { v });
+  }
+  // int ["." fraction] ["e" exponent], at least one of fraction / exponent; int = "0" / DIGIT1 *DIGIT
+  let st = i;
+  let n = digits(&mut i, false);
+  if n == 0 || (n > 1 && b[st] == b'0') {
+    return None;
+  }
+  let mut is_float = false;
+  if i < b.len() && b[i] == b'.' {
+    i += 1;
+    if digits(&mut i, false) == 0 {
+      return None;
+    }
+    is_float = true;
+  }
+  if i < b.len() && (b[i] == b'e' || b[i] == b'E') {
+    i += 1;
+    if i < b.len() && (b[i] == b'+' || b[i] == b'-') {
+      i += 1;
+    }
+    if digits(&mut i, false) == 0 {
+      return None;
+    }
+    is_float = true;
+  }
+  if !is_float || i != b.len() {
+    return None;
+  }
+  // Rust's decimal-to-float conversion is correctly rounded (IEEE 754 round-to-nearest-even): trusted here
+  let v: f64 = s.parse().ok()?;
+  if v.is_finite() {
+    Some(v)
+  } else {
+    None
+  }
+}
+
+fn check_float(lit: &str) -> Option<String> {
+  let want = spec_float(lit);
+  if want.is_some_and(|v| v.is_nan()) {
+    return None; // outside what the twin computes exactly
+  }
+  let docs: Vec<(String, Box<dyn Fn(&CDDL) -> Option<f64> + std::panic::UnwindSafe>)> = vec![
+    (format!("a = {}\n", lit), Box::new(|c| first_t1(c).and_then(|t| match &t.type2 { Type2::FloatValue { value, .. } => Some(*value), _ => None }))),
+    (format!("a = float .lt {}\n", lit), Box::new(|c| first_t1(c).and_then(|t| t.operator.as_ref()).and_then(|o| match &o.type2 { Type2::FloatValue { value, .. } => Some(*value), _ => None }))),
+    (format!("a = 0.5..{}\n", lit), Box::new(|c| first_t1(c).and_then(|t| t.operator.as_ref()).and_then(|o| match &o.type2 { Type2::FloatValue { value, .. } => Some(*value), _ => None }))),
+  ];
+  for (doc, get) in docs {
+    match parse_and(&doc, get) {
+      Err(p) => return Some(format!("parser panicked on {:?}: {}", doc, p)),
+      Ok(Ok(got)) => match (want, got) {
+        (Some(w), Some(g)) if w.to_bits() == g.to_bits() => {}
+        (Some(w), Some(g)) => return Some(format!("{:?}: float literal {} is stored as {:?} (bits {:016x}), its value is {:?} (bits {:016x})", doc.trim(), lit, g, g.to_bits(), w, w.to_bits())),
+        (None, Some(g)) => return Some(format!("{:?}: {} is not a representable float literal but is accepted and stored as {:?}", doc.trim(), lit, g)),
+        (Some(_), None) => return Some(format!("{:?}: accepted, but the literal is not stored as a float where expected", doc.trim())),
+        (None, None) => {} // accepted as something else (e.g. an integer, or `0.5..` followed by a name): not a float literal
+      },
+      Ok(Err(e)) => {
+        if let Some(w) = want {
+          return Some(format!("{:?}: float literal {} (value {:?}) is rejected: {}", doc.trim(), lit, w, e));
+        }
+      }
+    }
+  }
+  None
+}
+
+fn float_literals() -> Vec<String> {
+  let mut out: Vec<String> = vec![];
+  for m in ["0", "1", "10", "15", "123456789", "9007199254740993", "123456789012345678901234567890"] {
+    for f in ["", ".0", ".5", ".1", ".000001", ".999999999999999999999"] {
+      for e in ["", "e0", "e3", "E3", "e+3", "e-3", "e308", "e309", "e400", "e-308", "e-324", "e-400", "e+0"] {
+        if f.is_empty() && e.is_empty() {
+          continue;
+        }
+        out.push(format!("{}{}{}", m, f, e));
+        out.push(format!("-{}{}{}", m, f, e));
+      }
+    }
+  }
+  for s in ["1.7976931348623157e308", "1.7976931348623159e308", "4.9e-324", "2.2250738585072014e-308", "2.2250738585072011e-308", "0.1e1", "00.5", "1.", ".5", "1e", "1e+", "1.e3", "-0.0", "0.0", "0e0", "1.5e", "1_0.5"] {
+    out.push(s.to_string());
+  }
+  for m in ["1", "f", "1f", "10", "1fffffffffffff"] {
+    for f in ["", ".8", ".0", ".fffffffffffff", ".8000000000001"] {
+      for p in ["p0", "p3", "p-2", "P3", "p+3", "p1023", "p1024", "p-1022", ""] {
+        out.push(format!("0x{}{}{}", m, f, p));
+        out.push(format!("-0x{}{}{}", m, f, p));
+        out.push(format!("0X{}{}{}", m, f, p));
+      }
+    }
+  }
+  out
+}
+
+/// RFC 8610 3.1 values of whole byte-string literals (text between and including the quotes and prefix)
+fn spec_bytes_literal(lit: &str) -> Option<Vec<u8>> {
+  let strip_ws_comments = |c: &str| -> String {
+    let mut out = String::new();
+    let mut it = c.chars();
+    while let Some(ch) = it.next() {
+      if ch == ';' {
+        for d in it.by_ref() {
+          if d == '\n' {
+            break;
+          }
+        }
+      } else if !(ch == ' ' || ch == '\t' || ch == '\n' || ch == '\r') {
+        out.push(ch);
+      }
+    }
+    out
+  };
+  if let Some(c) = lit.strip_prefix("h'").and_then(|r| r.strip_suffix('\'')) {
+    return spec_hex(strip_ws_comments(c).as_bytes());
+  }
+  if let Some(c) = lit.strip_prefix("b64'").and_then(|r| r.strip_suffix('\'')) {
+    return spec_b64(strip_ws_comments(c).as_bytes());
+  }
+  if let Some(c) = lit.strip_prefix('\'').and_then(|r| r.strip_suffix('\'')) {
+    // "interpreted as with a text string, except that single quotes must be escaped"
+    let mut out = String::new();
+    let mut it = c.chars().peekable();
+    while let Some(ch) = it.next() {
+      if ch == '\'' {
+        return None;
+      }
+      if ch != '\\' {
+        out.push(ch);
+        continue;
+      }
+      match it.next()? {
+        'n' => out.push('\n'),
+        'r' => out.push('\r'),
+        't' => out.push('\t'),
+        'b' => out.push('\u{8}'),
+        'f' => out.push('\u{c}'),
+        '/' => out.push('/'),
+        '\\' => out.push('\\'),
+        '"' => out.push('"'),
+        '\'' => out.push('\''),
+        _ => return None, // \u forms are covered by the text-literal sweep; other escapes are not enumerated
+      }
+    }
+    return Some(out.into_bytes());
+  }
+  None
+}
+
+fn check_bytes_literal(lit: &str) -> Option<String> {
+  let want = spec_bytes_literal(lit);
+  let doc = format!("a = {}\n", lit);
+  let get = |c: &CDDL| -> Option<Vec<u8>> {
+    first_t1(c).and_then(|t| match &t.type2 {
+      Type2::UTF8ByteString { value, .. } | Type2::B16ByteString { value, .. } | Type2::B64ByteString { value, .. } => Some(value.to_vec()),
+      _ => None,
+    })
+  };
+  match parse_and(&doc, get) {
+    Err(p) => Some(format!("parser panicked on {:?}: {}", doc, p)),
+    Ok(Ok(got)) => match (want, got) {
+      (Some(w), Some(g)) if w == g => None,
+      (Some(w), Some(g)) => Some(format!("byte string literal {} is stored as {}, its value is {}", lit, hex(&g), hex(&w))),
+      (None, Some(g)) => Some(format!("{} denotes no byte string but is accepted and stored as {}", lit, hex(&g))),
+      (_, None) => Some(format!("{}: accepted, but not stored as a byte string", lit)),
+    },
+    Ok(Err(e)) => want.map(|w| format!("byte string literal {} (value {}) is rejected: {}", lit, hex(&w), e)),
+  }
+}
+
+fn bytes_literals() -> Vec<String> {
+  let mut out = vec![];
+  let hexparts = ["0f", "0F", "a", "", "g1", "00ff"];
+  let seps = ["", " ", "\n", " ; c\n", "\t", ";\n", "; 0f\n"];
+  for a in hexparts {
+    for s1 in seps {
+      for b2 in hexparts {
+        for s2 in ["", " ", "; trailing comment without newline"] {
+          out.push(format!("h'{}{}{}{}'", a, s1, b2, s2));
+        }
+      }
+    }
+  }
+  let b64parts = ["QUJD", "QU", "JD", "QQ==", "QQ", "Q", "-_8", "+/8"];
+  for a in b64parts {
+    for s1 in seps {
+      for b2 in b64parts {
+        out.push(format!("b64'{}{}{}'", a, s1, b2));
+      }
+    }
+  }
+  let chunks = ["a", " ", "\u{e9}", "\\\\", "\\'", "\\n", "\n", "\"", ";", "\\t", "\\/", "\u{1F600}"];
+  for a in chunks {
+    for b2 in chunks {
+      for c in ["", "z"] {
+        out.push(format!("'{}{}{}'", a, b2, c));
+      }
+    }
+  }
+  out.push("''".into());
+  out
+}
+
 fn hit(tried: u64, kind: &str, input: &str, why: &str) -> i32 {
   println!("{{\"found\":true,\"tried\":{},\"witness\":{{\"kind\":{},\"input\":{}}},\"real\":{}}}", tried, jstr(kind), jstr(input), jstr(why));
   1
@@ -480,6 +754,22 @@ pub fn find(args: &[String]) -> i32 {
       return hit(tried, "hex", &s, &why);
     }
   }
+  if which == "all" || which == "floats" {
+    for lit in float_literals() {
+      tried += 1;
+      if let Some(why) = check_float(&lit) {
+        return hit(tried, "float", &lit, &why);
+      }
+    }
+  }
+  if which == "all" || which == "byteslit" {
+    for lit in bytes_literals() {
+      tried += 1;
+      if let Some(why) = check_bytes_literal(&lit) {
+        return hit(tried, "byteslit", &lit, &why);
+      }
+    }
+  }
   println!("{{\"found\":false,\"tried\":{}}}", tried);
   0
 }
@@ -496,6 +786,8 @@ pub fn replay(args: &[String]) -> i32 {
     "text" => check_text(input),
     "int" => check_int_positions(input),
     "b64" => check_b64(input.as_bytes()),
+    "float" => check_float(input),
+    "byteslit" => check_bytes_literal(input),
     _ => check_hex(input.as_bytes()),
   };
   match r {
